@@ -19,7 +19,7 @@ ID = "C36"
 QUICK_N = 3000
 THOROUGH_N = 20000
 SHARD = 150
-RULE = ("kinds: dumps(value tree) 14%, load(bytes) 24%, pop(bytes) 20%, FlowReader.stream over small records with a "
+RULE = ("first, exhaustively: every flow type x every value of every typed connection field (tls_version, transport_protocol, state, proxy_mode; client and server) drawn from hard-coded independent domains (what OpenSSL/aioquic/the proxy core report), and the Literal check on each such value plus junk spellings; then random kinds: dumps(value tree) 14%, load(bytes) 24%, pop(bytes) 20%, FlowReader.stream over small records with a "
         "stubbed from_state raising every exception class 24%, nesting around the interpreter recursion budget 2%, "
         "real flows of every type (tflow/twebsocketflow/ttcpflow/tudpflow/tdnsflow with generated field values) "
         "written by FlowWriter and read by FlowReader 9%, real flow states with a key deleted/replaced 7%. "
@@ -38,7 +38,7 @@ ASSUMPTIONS = ["ints have at most 4300 decimal digits (sys.int_info.default_max_
                "str values contain no lone surrogates (their UTF-8 encoding exists); a state with such a str makes dumps raise UnicodeEncodeError",
                "the HAR branch of FlowReader.stream (input starting with '{' or BOM '{') is not modelled beyond the branch condition",
                "from_state never raises ValueError('not a tnetstring: empty file')"]
-TRANSLATORS = ["flowreader_except"]
+TRANSLATORS = ["flowreader_except", "connection_literals"]
 COQ_PRELUDE = "From MV Require Import Model.Tnet.\n"
 
 EXC_NAMES = ["RecursionError", "KeyError", "IndexError", "AttributeError", "AssertionError", "TypeError", "ValueError"]
@@ -410,6 +410,21 @@ MUT_TOKENS = [b":", b",", b";", b"#", b"^", b"!", b"~", b"]", b"}", b"0", b"1", 
 TYPES = b",;#^!~]}"
 
 
+# INDEPENDENT domains of the typed connection fields: what the TLS stacks / the proxy core produce in
+# operation (OpenSSL SSL_get_version(), aioquic), hard-coded here on purpose -- never derived from
+# the type annotations of mitmproxy/connection.py
+TLS_VERSIONS = [None, "SSLv3", "TLSv1", "TLSv1.1", "TLSv1.2", "TLSv1.3", "DTLSv0.9", "DTLSv1", "DTLSv1.2", "QUICv1"]
+TRANSPORTS = ["tcp", "udp"]
+CONN_STATES = [0, 1, 2, 3]    # ConnectionState CLOSED / CAN_READ / CAN_WRITE / OPEN (not serialised, must not disturb saving)
+PROXY_MODES = ["regular", "transparent", "socks5", "local", "local:curl", "wireguard", "dns", "tun", "upstream:http://proxy:8080",
+               "upstream:https://proxy", "reverse:https://example.com", "reverse:http://example.com:8080", "reverse:tcp://10.0.0.1:53",
+               "reverse:tls://example.com:853", "reverse:dns://8.8.8.8", "reverse:udp://1.1.1.1:53", "reverse:dtls://example.com:5684",
+               "reverse:quic://example.com", "reverse:http3://example.com", "regular@8081", "socks5@127.0.0.1:1080", "dns@53"]
+TYPED_FIELDS = {"c_tlsv": TLS_VERSIONS, "s_tlsv": TLS_VERSIONS, "c_transport": TRANSPORTS, "s_transport": TRANSPORTS,
+                "c_state": CONN_STATES, "s_state": CONN_STATES, "proxy_mode": PROXY_MODES}
+JUNK_LITERALS = ["", "DTLSv1.3", "DTLSv1.2DTLSv1.3", "TLSv1.4", "tlsv1.2", "TLSv1.2 ", "SSLv2", "QUICv2", "sctp", "TCP", "both", "tcpudp"]
+
+
 def rand_leaf(rng):
     r = rng.below(8)
     if r == 0:
@@ -551,6 +566,8 @@ def flow_recipe(rng):
          "peer": [rng.choice(["127.0.0.1", "::1", "höst"]), rng.choice([0, 22, 65535])],
          "address_none": rng.chance(0.15), "via": rng.chance(0.2), "msgs": rng.randint(0, 3), "close_code": rng.choice([None, 1000, 1006]),
          "dns_resp": rng.chance(0.6), "killable": rng.chance(0.1)}
+    for fld, dom in TYPED_FIELDS.items():
+        r[fld] = rng.choice(dom)
     return r
 
 
@@ -607,6 +624,12 @@ def mkflow(r):
     f.metadata = from_j(r["metadata"])
     f.timestamp_created = r["ts"]
     c, s = f.client_conn, f.server_conn
+    if "c_tlsv" in r:
+        from mitmproxy import connection as mconn
+        from mitmproxy.proxy import mode_specs
+        c.tls_version, s.tls_version = r["c_tlsv"], r["s_tlsv"]
+        c.transport_protocol, s.transport_protocol = r["c_transport"], r["s_transport"]
+        c.proxy_mode = mode_specs.ProxyMode.parse(r["proxy_mode"])
     c.peername = tuple(r["peer"])
     c.sni = r["sni"]
     c.alpn = None if r["alpn"] is None else unhx(r["alpn"])
@@ -628,6 +651,9 @@ def mkflow(r):
     if r["via"]:
         from mitmproxy.net import server_spec
         s.via = server_spec.parse("https://proxy.example:8080", "https")
+    if "c_state" in r:   # last: an open server connection refuses address/via changes
+        from mitmproxy import connection as mconn2
+        c.state, s.state = mconn2.ConnectionState(r["c_state"]), mconn2.ConnectionState(r["s_state"])
     if r["backup"]:
         f.backup()
         f.comment = f.comment + "!"
@@ -653,6 +679,18 @@ def write_flows(flows) -> bytes:
 
 def gen(rng, n, tier):
     out = []
+    # exhaustive: every flow type x every value of every typed connection field (one at a time)
+    for t in ("http", "ws", "tcp", "udp", "dns"):
+        for fld, dom in TYPED_FIELDS.items():
+            for val in dom:
+                rc = flow_recipe(rng)
+                rc.update(type=t, cert=False)
+                rc[fld] = val
+                out.append({"k": "flows", "recipes": [rc], "coq": False, "typed": [fld, val]})
+    for v in TLS_VERSIONS + JUNK_LITERALS:
+        out.append({"k": "literal", "field": "tls_version", "v": v})
+    for v in TRANSPORTS + JUNK_LITERALS:
+        out.append({"k": "literal", "field": "transport_protocol", "v": v})
     for _ in range(n):
         r = rng.random()
         if r < 0.14:
@@ -815,6 +853,26 @@ def run_impl(case):
             o["same_mod_tuples"] = len(before) == len(after) and all(py_eq_j(to_j(x), to_j(y)) for x, y in zip(before, after))
             o["diff"] = [kk for x, y in zip(before, after) for kk in x if not state_eq(x[kk], y.get(kk))][:5]
         return o
+    if k == "literal":
+        import copy
+        from mitmproxy import connection as mconn
+        res = {}
+        for side, mk in (("client", M["tflow"].tclient_conn), ("server", M["tflow"].tserver_conn)):
+            conn = mk()
+            good = copy.deepcopy(conn.get_state())
+            setattr(conn, case["field"], case["v"])
+            try:
+                conn.get_state()
+                res[side + "_get"] = True
+            except ValueError:
+                res[side + "_get"] = False
+            good[case["field"]] = case["v"]
+            try:
+                type(conn).from_state(good)
+                res[side + "_set"] = True
+            except ValueError:
+                res[side + "_set"] = False
+        return res
     if k == "shape":
         load_cert()
         b = tnet.dumps(shape_state(case))
@@ -833,6 +891,14 @@ def coq_stream(obs, data_hex):
 
 def coq_case(case, obs):
     k = case["k"]
+    if k == "literal":
+        if len(set(obs.values())) != 1:
+            return None     # the four observations disagree with each other: reported by the oracle
+        ok = cbool(obs["client_get"])
+        if case["field"] == "tls_version":
+            v = "None" if case["v"] is None else f"(Some {cbytes(case['v'].encode())})"
+            return f"TlsVersionField {v} {ok}"
+        return f"TransportField {cbytes(case['v'].encode())} {ok}"
     if k == "dumps":
         if "exc" in obs:
             return None
@@ -857,6 +923,13 @@ def oracle(case, obs):
     arbitrary bytes yields flows and then ends cleanly or with FlowReadException, nothing else."""
     k = case["k"]
     v = []
+    if k == "literal":
+        dom = TLS_VERSIONS if case["field"] == "tls_version" else TRANSPORTS
+        if len(set(obs.values())) != 1:
+            v.append({"key": "typed-field-inconsistent", "what": f"{case['field']}={case['v']!r}: get_state/from_state of Client/Server disagree: {obs}"})
+        elif case["v"] in dom and not obs["client_get"]:
+            v.append({"key": "reported-value-rejected", "what": f"Connection.{case['field']}={case['v']!r} (a value the TLS stack / proxy core reports) is rejected by get_state/from_state: flows on such a connection cannot be saved"})
+        return v
     if k == "dumps":
         if "exc" in obs:
             if obs["exc"] not in ("UnicodeEncodeError",):
@@ -888,7 +961,7 @@ def oracle(case, obs):
         return v
     # stream-like
     if "write_exc" in obs:
-        return [{"key": "write-" + obs["write_exc"], "what": f"FlowWriter.add raised {obs['write_exc']} for recipes {str(case['recipes'])[:200]}"}]
+        return [{"key": "write-" + obs["write_exc"], "what": f"FlowWriter.add raised {obs['write_exc']} for " + (f"a {case['recipes'][0]['type']} flow with {case['typed'][0]}={case['typed'][1]!r}; " if case.get("typed") else "") + f"recipes {str(case['recipes'])[:160]}"}]
     fin = obs["final"]
     if fin not in ("clean", "fre"):
         if fin == "RecursionError":
@@ -913,6 +986,8 @@ def oracle(case, obs):
 
 def nontrivial(case, obs):
     k = case["k"]
+    if k == "literal":
+        return True
     if k == "dumps":
         return "recipe" in case or next(iter(case["v"])) in ("l", "d")
     if k in ("load", "pop", "stream"):
@@ -923,6 +998,10 @@ def nontrivial(case, obs):
 def classify(case, obs):
     k = case["k"]
     tags = [k]
+    if k == "literal":
+        return tags + [f"literal:{case['field']}:{'ok' if obs['client_get'] else 'rejected'}"]
+    if case.get("typed"):
+        tags.append("typed:" + case["typed"][0])
     if k in ("load", "pop") or (k == "deep" and case["via"] != "stream"):
         o = obs["o"]
         tags.append(f"{k}:" + (o["r"] if o["r"] != "exc" else o["e"]))
